@@ -56,6 +56,19 @@ CHECKS = {
         'quick': {'shards': 16, 'timeout': 600},
         'thorough': {'shards': 16, 'timeout': 3600},
     },
+    'C01': {
+        'pkg': 'internal/multiplex', 'test': 'TestVerif_C01', 'level': 'exploration',
+        'technique': 'runtime monitor: incremental generator-comparison oracle at the reading application over a hostile in-memory network (chosen arrival orders, segmentation, back-pressure) in a synctest bubble, forced addConn interleaving via hook, race detector',
+        'level_text': 'Runs two real sessions over 1..8 TLSConn connections of the hostile network with 1..hundreds of concurrent bidirectional streams, all four methods, Write and ReadFrom paths and write sizes from 1 byte to several frames; '
+                      'the harness chooses cross-connection arrival order (random merge, starved connection, newest first, LIFO) or lets goroutines race with jitter, connection adding during traffic and bounded windows; every byte read is compared with the tagged generator, '
+                      'and at quiescence (decided by synctest.Wait, not by timeouts) every stream must be complete and both sessions open. One case forces sends inside the addConn publish window through a hook.',
+        'level_note': 'Assumes ' + A_RACE + ' and ' + A_HARNESS + '. Goroutine schedules are sampled (GOMAXPROCS sweep, jitter), not enumerated; arrival orders are sampled because Cloak picks connections at random.',
+        'rule': 'case = (method, NumConn incl. singleplex, router policy or free-running with jitter/window/late connection adding, segmentation, GOMAXPROCS, stream plans with tagged up/down write-size sequences); '
+                'distinct = hash of configuration and first stream plan; non-trivial = at least one stream with >= 16 bytes each way verified byte by byte; arrival_orders counts distinct cross-connection record orders observed',
+        'assumptions': [A_RACE, A_HARNESS],
+        'quick': {'shards': 16, 'timeout': 600},
+        'thorough': {'shards': 16, 'timeout': 3600},
+    },
 }
 
 NOT_APPLICABLE = {p: 'check not built yet in this round (the design in DESIGN.md section 3 applies; runtime monitoring can decide it)'
